@@ -3,7 +3,9 @@
 package server
 
 import (
+	"errors"
 	"fmt"
+	"net"
 	"net/netip"
 	"strings"
 	"testing"
@@ -11,6 +13,9 @@ import (
 	v3corepb "github.com/envoyproxy/go-control-plane/envoy/config/core/v3"
 	v3listenerpb "github.com/envoyproxy/go-control-plane/envoy/config/listener/v3"
 	v3httppb "github.com/envoyproxy/go-control-plane/envoy/extensions/filters/network/http_connection_manager/v3"
+	"google.golang.org/grpc/connectivity"
+	internalgrpclog "google.golang.org/grpc/internal/grpclog"
+	"google.golang.org/grpc/internal/grpcsync"
 	"google.golang.org/grpc/internal/testutils/xds/e2e"
 	"google.golang.org/grpc/internal/xds/bootstrap"
 	"google.golang.org/grpc/internal/xds/clients/xdsclient"
@@ -169,6 +174,73 @@ func vFilterChainLoad(lis *v3listenerpb.Listener) *filterChainManager {
 	return newFilterChainManager(&upd.TCPListener.FilterChains, &upd.TCPListener.DefaultFilterChain)
 }
 
+// ---- the path through the real listenerWrapper.Accept() ----
+
+type vFilterChainConn struct {
+	net.Conn
+	local, remote net.Addr
+}
+
+func (c *vFilterChainConn) LocalAddr() net.Addr  { return c.local }
+func (c *vFilterChainConn) RemoteAddr() net.Addr { return c.remote }
+func (c *vFilterChainConn) Close() error         { return nil }
+
+var vFilterChainErrDone = errors.New("vfc: no more connections")
+
+// vFilterChainLis hands out one connection, then a permanent error (Accept() loops after
+// closing a connection for which no filter chain was found).
+type vFilterChainLis struct{ conn net.Conn }
+
+func (l *vFilterChainLis) Accept() (net.Conn, error) {
+	if c := l.conn; c != nil {
+		l.conn = nil
+		return c, nil
+	}
+	return nil, vFilterChainErrDone
+}
+func (l *vFilterChainLis) Close() error   { return nil }
+func (l *vFilterChainLis) Addr() net.Addr { return &net.TCPAddr{IP: net.IPv6unspecified, Port: 50051} }
+
+func vFilterChainTCP(a netip.Addr, port int, zoned bool) *net.TCPAddr {
+	t := &net.TCPAddr{IP: net.IP(a.AsSlice()), Port: port}
+	if zoned && a.Is6() && !a.Is4In6() {
+		t.Zone = "eth0"
+	}
+	return t
+}
+
+// vFilterChainAccept runs one connection through Accept(): [0,id] | [1,0] | [5,0] closed.
+func vFilterChainAccept(fcm *filterChainManager, wildcard bool, dst, src *net.TCPAddr) []int64 {
+	lw := &listenerWrapper{
+		Listener:                 &vFilterChainLis{conn: &vFilterChainConn{local: dst, remote: src}},
+		isUnspecifiedAddr:        wildcard,
+		closed:                   grpcsync.NewEvent(),
+		mode:                     connectivity.ServingModeServing,
+		activeFilterChainManager: fcm,
+		conns:                    make(map[*connWrapper]bool),
+	}
+	lw.logger = internalgrpclog.NewPrefixLogger(logger, "[vfc] ")
+	c, err := lw.Accept()
+	if err != nil {
+		if err == vFilterChainErrDone {
+			return []int64{5, 0}
+		}
+		return []int64{6, 0}
+	}
+	cw, ok := c.(*connWrapper)
+	if !ok || cw.filterChain == nil {
+		return []int64{6, 0}
+	}
+	if cw.filterChain.routeConfigName == "default" {
+		return []int64{1, 0}
+	}
+	var id int64
+	if _, e := fmt.Sscanf(cw.filterChain.routeConfigName, "c%d", &id); e != nil {
+		id = -1
+	}
+	return []int64{0, id}
+}
+
 func vFilterChainExec(cfg []int64, ops [][]int64) ([][]int64, bool, []string) {
 	var obs [][]int64
 	var fcm *filterChainManager
@@ -216,12 +288,32 @@ func vFilterChainExec(cfg []int64, ops [][]int64) ([][]int64, bool, []string) {
 			}
 			seen[fmt.Sprintf("kind-%d", o[0])] = true
 			obs = append(obs, o)
+		case len(op) >= 4 && op[0] == 3 && (op[1] == 0 || op[1] == 1) && (op[2] == 0 || op[2] == 1) && (op[3] == 0 || op[3] == 1):
+			dst, r, ok1 := vFilterChainAddr(op[4:])
+			src, r2, ok2 := netip.Addr{}, []int64(nil), false
+			if ok1 {
+				src, r2, ok2 = vFilterChainAddr(r)
+			}
+			if !ok1 || !ok2 || len(r2) != 1 || r2[0] < 0 || r2[0] > 65535 {
+				obs = append(obs, []int64{})
+				continue
+			}
+			if fcm == nil {
+				obs = append(obs, []int64{4, 0})
+				continue
+			}
+			o := vFilterChainAccept(fcm, op[1] == 1, vFilterChainTCP(dst, 50051, op[2] == 1), vFilterChainTCP(src, int(r2[0]), op[3] == 1))
+			seen[fmt.Sprintf("accept-%d", o[0])] = true
+			if o[0] == 0 {
+				seen["kind-0"] = true
+			}
+			obs = append(obs, o)
 		default:
 			obs = append(obs, []int64{})
 		}
 	}
 	var tags []string
-	for _, t := range []string{"load-0", "load-1", "kind-0", "kind-1", "kind-2", "kind-3"} {
+	for _, t := range []string{"load-0", "load-1", "kind-0", "kind-1", "kind-2", "kind-3", "accept-0", "accept-1", "accept-5"} {
 		if seen[t] {
 			tags = append(tags, t)
 		}
@@ -443,6 +535,13 @@ func vFilterChainGenLook(r *vRand, v6 bool) []int64 {
 	return vCat([]int64{2, vB(r.Chance(85))}, dst, src, []int64{r.PickI64(80, 1234, 5555, 65535, 0)})
 }
 
+// vFilterChainGenAccept: a connection through Accept(); IPv6 TCPAddrs carry a zone half
+// of the time (only non-4-in-6 IPv6 addresses can; link-local ones do in practice).
+func vFilterChainGenAccept(r *vRand, v6 bool) []int64 {
+	l := vFilterChainGenLook(r, v6)
+	return vCat([]int64{3, l[1], vB(r.Bool()), vB(r.Bool())}, l[2:])
+}
+
 func vFilterChainFixed() [][]int64 {
 	ch := func(dst []int64, st int64, src []int64, ports ...int64) []int64 {
 		return vCat([]int64{0}, dst, []int64{st}, src, []int64{int64(len(ports))}, ports)
@@ -490,6 +589,17 @@ func vFilterChainFixed() [][]int64 {
 		vCat([]int64{1, 0, 0}),
 		vCat([]int64{1, 1, 0}),
 		look(1, 0x0A010101, 0x08080808, 1234),
+		// scoped IPv6 (fe80::1%eth0): the zone is not part of the address, fe80::/10 still matches
+		vCat([]int64{1, 1, 4}, ch(none, 0, none), ch(one(6, 0xFE800000, 0, 0, 0, 10), 0, none),
+			ch(one(6, 0xFE800000, 0, 0, 0, 10), 0, one(6, 0xFE800000, 0, 0, 0xAA00, 120)), ch(one(6, 0xFE800000, 0, 0, 0, 10), 1, none)),
+		{3, 1, 0, 0, 6, 0xFE800000, 0, 0, 1, 6, 0xFE800000, 0, 0, 2, 40000},
+		{3, 1, 1, 1, 6, 0xFE800000, 0, 0, 1, 6, 0xFE800000, 0, 0, 2, 40000},
+		{3, 1, 1, 1, 6, 0xFE800000, 0, 0, 1, 6, 0xFE800000, 0, 0, 0xAA07, 40000},
+		{3, 1, 1, 1, 6, 0xFE800000, 0, 0, 1, 6, 0xFE800000, 0, 0, 1, 40000},
+		{3, 1, 1, 0, 6, 0xFE800000, 0, 0, 1, 6, 0x20010DB8, 0, 0, 2, 40000},
+		{3, 1, 0, 1, 6, 0x20010DB8, 0, 0, 1, 6, 0xFE800000, 0, 0, 0xAA07, 40000},
+		{3, 1, 1, 1, 6, 0, 0, 0xFFFF, 0x0A010203, 6, 0, 0, 0xFFFF, 0x08080808, 40000},
+		{3, 0, 1, 1, 6, 0xFE800000, 0, 0, 1, 6, 0xFE800000, 0, 0, 2, 40000},
 	}
 }
 
@@ -507,6 +617,9 @@ func vFilterChainGen(r *vRand, tier string, idx int) ([]int64, [][]int64) {
 		}
 		for i := 0; i < 10; i++ {
 			ops = append(ops, vFilterChainGenLook(r, v6))
+		}
+		for i := 0; i < 4; i++ {
+			ops = append(ops, vFilterChainGenAccept(r, v6))
 		}
 	}
 	return nil, ops
